@@ -40,6 +40,8 @@ func TestVerifC04Api(t *testing.T) {
 		{"multi-target", [][2]string{{"A", "NICK a"}, {"A", "USER a 0 * :A"}, {"B", "NICK b"}, {"B", "USER b 0 * :B"}, {"A", "JOIN #c,#d"}, {"B", "JOIN #d,#c"}, {"A", "MODE #c +i"}, {"A", "MODE #c"}, {"B", "WHOIS a"}, {"A", "KICK #c b :out"}, {"B", "LIST"}, {"A", "PART #c,#d"}}},
 		// a batch whose first replies go to somebody else only: A joins #a and #b, B is a member of #b only
 		{"partial-overlap", [][2]string{{"A", "NICK a"}, {"A", "USER a 0 * :A"}, {"B", "NICK b"}, {"B", "USER b 0 * :B"}, {"B", "JOIN #b"}, {"A", "JOIN #a,#b"}, {"A", "PRIVMSG #a :only a"}, {"A", "PRIVMSG #b :both"}, {"A", "PART #a,#b :bye"}, {"B", "PRIVMSG a :pm"}}},
+		// a services link sets a topic with time 0 ("unknown"); topic queries and joins come later
+		{"services-topic", [][2]string{{"A", "NICK a"}, {"A", "USER a 0 * :A"}, {"B", "NICK b"}, {"B", "USER b 0 * :B"}, {"A", "JOIN #c"}, {"S", "PASS :services=svcpw"}, {"S", "SERVER services.robustirc.net 1 :Services"}, {"S", "NICK ChanServ 1 1422134861 services robustirc.net services.robustirc.net 0 :Channel Services"}, {"S", ":ChanServ JOIN #c"}, {"S", ":ChanServ TOPIC #c ChanServ 0 :topic with time zero"}, {"A", "PRIVMSG #c :filler one"}, {"A", "PRIVMSG #c :filler two"}, {"A", "TOPIC #c"}, {"B", "JOIN #c"}, {"B", "TOPIC #c"}, {"A", "PART #c :bye"}, {"A", "JOIN #c"}}},
 		{"errors-and-away", [][2]string{{"A", "NICK a"}, {"B", "NICK a"}, {"A", "USER a 0 * :A"}, {"B", "NICK b"}, {"B", "USER b 0 * :B"}, {"A", "AWAY :gone"}, {"B", "PRIVMSG a :hi"}, {"A", "FOO"}, {"A", "JOIN #c"}, {"B", "INVITE a #c"}, {"A", "MOTD"}, {"B", "QUIT :bye"}}},
 	}
 	// a history long enough for the message ids to cross a multiple of 256 more than once (the output store orders
@@ -58,12 +60,15 @@ func TestVerifC04Api(t *testing.T) {
 		h       hist
 		restart bool
 		order   []string // the order in which the sessions read (decoded batches are cached per node)
+		mid     bool     // after 60% of the history: a snapshot that folds everything, then a restart -- the rest of
+		// the history is applied by a node that was restored from a snapshot state
 	}
 	var jobs []job
 	for _, h := range hists {
 		for _, o := range [][]string{{"A", "B"}, {"B", "A"}} {
-			jobs = append(jobs, job{h, false, o}, job{h, true, o})
+			jobs = append(jobs, job{h, false, o, false}, job{h, true, o, false})
 		}
+		jobs = append(jobs, job{h, false, []string{"A", "B"}, true})
 	}
 	prop := os.Getenv("VERIF_API_PROP")
 	if prop == "" {
@@ -83,13 +88,32 @@ func TestVerifC04Api(t *testing.T) {
 		}
 		sess := map[string]vSession{}
 		cm := uint64(500)
-		for _, l := range j.h.lines {
+		foldedId := uint64(0)
+		for li, l := range j.h.lines {
 			s, ok := sess[l[0]]
 			if !ok {
 				s, _ = n.createSession()
 				sess[l[0]] = s
 			}
 			cm++
+			if j.mid && li == len(j.h.lines)*6/10 {
+				li0, _ := n.logStore.LastIndex()
+				foldedId = robust.IdFromRaftIndex(li0) // outputs up to here are compacted away with the fold, by design
+				*canaryCompactionStart = time.Now().Add(1000 * time.Hour).UnixNano()
+				time.Sleep(2 * time.Millisecond)
+				err := n.raft.Snapshot().Error()
+				*canaryCompactionStart = 0
+				if err != nil {
+					res.HarnessErr = "HARNESS: snapshot: " + err.Error()
+					break
+				}
+				n.Stop()
+				if n, err = vStartNode(dir, false); err != nil {
+					t.Fatal(err)
+				}
+				res.Restarts++
+				res.Snapshots++
+			}
 			if strings.HasPrefix(l[1], "QUIT") && prop == "C04" {
 				// the session ends with this line: what it is still owed (ERROR :Closing Link) can only be
 				// received by a reader that is connected at that moment -- afterwards the session is unknown
@@ -246,6 +270,9 @@ func TestVerifC04Api(t *testing.T) {
 					served[fmt.Sprintf("%d.%d", m.Id.Id, m.Id.Reply)] = true
 				}
 				for id, batch := range ref {
+					if id <= foldedId {
+						continue
+					}
 					for _, om := range batch {
 						if om.for_[s.Num] && !served[fmt.Sprintf("%d.%d", id, om.reply)] {
 							res.report(sigs, prop, "a message addressed to a session is not served to it by GET messages", fmt.Sprintf("history %s, readers in the order %v, session %s: %d.%d %q is addressed to it in the stored batch", j.h.name, j.order, who, id-robust.MessageOffset, om.reply, om.data), seq)
